@@ -12,7 +12,7 @@ import time
 from hypothesis import strategies as st
 
 from vf import lab, plugsynth
-from vf.core import Prop, Outcome, HarnessError
+from vf.core import Prop, Outcome, HarnessError, fd
 
 from deep.api.deep import Deep
 from deepproto.proto.poll.v1.poll_pb2 import PollResponse, ResponseType
@@ -48,8 +48,8 @@ class C14(Prop):
             'non-trivial = a shutdown with >= 1 injected failure, or a pre-existing hook, or NO_TRACE; distinct = '
             'distinct recipe')
     assumptions = ['all lifecycle calls come from one harness thread (sys.settrace is per thread)',
-                   'restarting an agent that was shut down is not defined by the statement: start ops after a completed '
-                   'shutdown are dropped from the history',
+                   'restarting an agent that was shut down is generated only when the service answers "no change" (a '
+                   'restart that has to submit work finds the task handler closed for good; the statement does not define it)',
                    'hooks are compared by identity / bound-method equality',
                    'the poll timer interval is long (no tick during a case); polls are counted at the fake channel']
     quick_examples = 600
@@ -57,11 +57,11 @@ class C14(Prop):
     floors = {'shutdown_with_failure': 0.1, 'pre_existing_hook': 0.3, 'no_trace': 0.15, 'parked_thread': 0.08}
 
     def strategy(self, tier):
-        plugin = st.fixed_dictionaries({'roles': st.lists(st.sampled_from(['decorator', 'logger', 'resource', 'metric']),
+        plugin = fd({'roles': st.lists(st.sampled_from(['decorator', 'logger', 'resource', 'metric']),
                                                           min_size=1, max_size=2, unique=True),
                                         'order': st.integers(-1, 3),
                                         'shutdown_fault': st.sampled_from([None, None, 'E', 'B'])})
-        return st.fixed_dictionaries({
+        return fd({
             'pre': st.sampled_from(['none', 'sys', 'threading', 'both', 'same']),
             'no_trace': st.sampled_from([None, None, True, 'True']),
             'plugins': st.lists(plugin, max_size=4),
@@ -69,6 +69,7 @@ class C14(Prop):
             'sends': st.lists(st.sampled_from(['ok', 'fail', 'convert_fail']), max_size=3),
             'parked': st.sampled_from([True, True, False]),
             'step_fault': st.sampled_from([None, None, None, 'flush', 'poll']),
+            'poll': st.sampled_from(['update', 'update', 'nochange']),
         })
 
     def run_case(self, recipe):
@@ -97,6 +98,8 @@ class C14(Prop):
         sent = []
 
         def responder(method, raw):
+            if method.endswith('poll') and recipe.get('poll') == 'nochange':
+                return PollResponse(ts_nanos=1, current_hash='', response_type=ResponseType.NO_CHANGE)
             if method.endswith('poll'):
                 return PollResponse(ts_nanos=1, current_hash='H1', response_type=ResponseType.UPDATE, response=[
                     TracePointConfig(ID='tp-life', path='c14_host.py', line_number=TP_LINE,
@@ -123,8 +126,11 @@ class C14(Prop):
             threading.settrace(pre_thr)
             shut_once = False
             for op in recipe['ops']:
+                if op == 'start' and shut_once and recipe.get('poll') != 'nochange':
+                    continue            # restart with work for the (closed) task handler is not defined: not generated
                 if op == 'start' and shut_once:
-                    continue            # restarting a shut-down agent is not defined by the statement: not generated
+                    out.cls('restart')
+                    timers[:] = []
                 if op == 'start':
                     n_polls = len(channel.of('poll'))
                     n_inst = len(world.instances)
